@@ -43,7 +43,10 @@ impl<'a> Out<'a> {
 #[macro_export]
 macro_rules! each_enc {
     ($out:expr, $prop:expr, $ag:expr, $rng:expr, [$($enc:ident),*], |$g:ident, $fwd:ident, $inv:ident| $body:expr) => {{
-        $( each_enc!(@one $enc, $out, $prop, $ag, $rng, |$g, $fwd, $inv| $body); )*
+        $( each_enc!(@one $enc, i64, $out, $prop, $ag, $rng, |$g, $fwd, $inv| $body); )*
+    }};
+    ($out:expr, $prop:expr, $ag:expr, $rng:expr, $E:ty, [$($enc:ident),*], |$g:ident, $fwd:ident, $inv:ident| $body:expr) => {{
+        $( each_enc!(@one $enc, $E, $out, $prop, $ag, $rng, |$g, $fwd, $inv| $body); )*
     }};
     (@emit $out:expr, $prop:expr, $ag:expr, $ename:expr, $h:expr, $build:expr, |$g:ident, $fwd:ident, $inv:ident| $body:expr) => {{
         let ($g, $fwd) = $build;
@@ -51,52 +54,52 @@ macro_rules! each_enc {
         let fields = $body;
         $out.rec($prop, $ename, HISTS[$h], $ag, fields);
     }};
-    (@one graph, $out:expr, $prop:expr, $ag:expr, $rng:expr, |$g:ident, $fwd:ident, $inv:ident| $body:expr) => {
+    (@one graph, $E:ty, $out:expr, $prop:expr, $ag:expr, $rng:expr, |$g:ident, $fwd:ident, $inv:ident| $body:expr) => {
         for h in 0..3 {
-            if $ag.directed { each_enc!(@emit $out, $prop, $ag, "graph", h, build_graph::<Directed>($ag, h, $rng), |$g, $fwd, $inv| $body) }
-            else { each_enc!(@emit $out, $prop, $ag, "graph", h, build_graph::<Undirected>($ag, h, $rng), |$g, $fwd, $inv| $body) }
+            if $ag.directed { each_enc!(@emit $out, $prop, $ag, "graph", h, build_graph::<Directed, $E>($ag, h, $rng), |$g, $fwd, $inv| $body) }
+            else { each_enc!(@emit $out, $prop, $ag, "graph", h, build_graph::<Undirected, $E>($ag, h, $rng), |$g, $fwd, $inv| $body) }
         }
     };
-    (@one stable, $out:expr, $prop:expr, $ag:expr, $rng:expr, |$g:ident, $fwd:ident, $inv:ident| $body:expr) => {
+    (@one stable, $E:ty, $out:expr, $prop:expr, $ag:expr, $rng:expr, |$g:ident, $fwd:ident, $inv:ident| $body:expr) => {
         for h in 0..3 {
-            if $ag.directed { each_enc!(@emit $out, $prop, $ag, "stable", h, build_stable::<Directed>($ag, h, $rng), |$g, $fwd, $inv| $body) }
-            else { each_enc!(@emit $out, $prop, $ag, "stable", h, build_stable::<Undirected>($ag, h, $rng), |$g, $fwd, $inv| $body) }
+            if $ag.directed { each_enc!(@emit $out, $prop, $ag, "stable", h, build_stable::<Directed, $E>($ag, h, $rng), |$g, $fwd, $inv| $body) }
+            else { each_enc!(@emit $out, $prop, $ag, "stable", h, build_stable::<Undirected, $E>($ag, h, $rng), |$g, $fwd, $inv| $body) }
         }
     };
-    (@one matrixd, $out:expr, $prop:expr, $ag:expr, $rng:expr, |$g:ident, $fwd:ident, $inv:ident| $body:expr) => {
+    (@one matrixd, $E:ty, $out:expr, $prop:expr, $ag:expr, $rng:expr, |$g:ident, $fwd:ident, $inv:ident| $body:expr) => {
         if $ag.is_simple() && $ag.directed {
             for h in 0..3 {
-                each_enc!(@emit $out, $prop, $ag, "matrix", h, build_matrix::<Directed>($ag, h, $rng), |$g, $fwd, $inv| $body)
+                each_enc!(@emit $out, $prop, $ag, "matrix", h, build_matrix::<Directed, $E>($ag, h, $rng), |$g, $fwd, $inv| $body)
             }
         }
     };
-    (@one matrixu, $out:expr, $prop:expr, $ag:expr, $rng:expr, |$g:ident, $fwd:ident, $inv:ident| $body:expr) => {
+    (@one matrixu, $E:ty, $out:expr, $prop:expr, $ag:expr, $rng:expr, |$g:ident, $fwd:ident, $inv:ident| $body:expr) => {
         if $ag.is_simple() && !$ag.directed {
             for h in 0..3 {
-                each_enc!(@emit $out, $prop, $ag, "matrix", h, build_matrix::<Undirected>($ag, h, $rng), |$g, $fwd, $inv| $body)
+                each_enc!(@emit $out, $prop, $ag, "matrix", h, build_matrix::<Undirected, $E>($ag, h, $rng), |$g, $fwd, $inv| $body)
             }
         }
     };
-    (@one map, $out:expr, $prop:expr, $ag:expr, $rng:expr, |$g:ident, $fwd:ident, $inv:ident| $body:expr) => {
+    (@one map, $E:ty, $out:expr, $prop:expr, $ag:expr, $rng:expr, |$g:ident, $fwd:ident, $inv:ident| $body:expr) => {
         if $ag.is_simple() {
             for h in 0..3 {
-                if $ag.directed { each_enc!(@emit $out, $prop, $ag, "map", h, build_map::<Directed>($ag, h, $rng), |$g, $fwd, $inv| $body) }
-                else { each_enc!(@emit $out, $prop, $ag, "map", h, build_map::<Undirected>($ag, h, $rng), |$g, $fwd, $inv| $body) }
+                if $ag.directed { each_enc!(@emit $out, $prop, $ag, "map", h, build_map::<Directed, $E>($ag, h, $rng), |$g, $fwd, $inv| $body) }
+                else { each_enc!(@emit $out, $prop, $ag, "map", h, build_map::<Undirected, $E>($ag, h, $rng), |$g, $fwd, $inv| $body) }
             }
         }
     };
-    (@one csr, $out:expr, $prop:expr, $ag:expr, $rng:expr, |$g:ident, $fwd:ident, $inv:ident| $body:expr) => {
+    (@one csr, $E:ty, $out:expr, $prop:expr, $ag:expr, $rng:expr, |$g:ident, $fwd:ident, $inv:ident| $body:expr) => {
         if $ag.is_simple() {
             for h in 0..2 {
-                if $ag.directed { each_enc!(@emit $out, $prop, $ag, "csr", h, build_csr::<Directed>($ag, h, $rng), |$g, $fwd, $inv| $body) }
-                else { each_enc!(@emit $out, $prop, $ag, "csr", h, build_csr::<Undirected>($ag, h, $rng), |$g, $fwd, $inv| $body) }
+                if $ag.directed { each_enc!(@emit $out, $prop, $ag, "csr", h, build_csr::<Directed, $E>($ag, h, $rng), |$g, $fwd, $inv| $body) }
+                else { each_enc!(@emit $out, $prop, $ag, "csr", h, build_csr::<Undirected, $E>($ag, h, $rng), |$g, $fwd, $inv| $body) }
             }
         }
     };
-    (@one list, $out:expr, $prop:expr, $ag:expr, $rng:expr, |$g:ident, $fwd:ident, $inv:ident| $body:expr) => {
+    (@one list, $E:ty, $out:expr, $prop:expr, $ag:expr, $rng:expr, |$g:ident, $fwd:ident, $inv:ident| $body:expr) => {
         if $ag.directed {
             for h in 0..2 {
-                each_enc!(@emit $out, $prop, $ag, "list", h, build_list($ag, h, $rng), |$g, $fwd, $inv| $body)
+                each_enc!(@emit $out, $prop, $ag, "list", h, build_list::<$E>($ag, h, $rng), |$g, $fwd, $inv| $body)
             }
         }
     };
@@ -221,9 +224,315 @@ pub fn c09_graph(out: &mut Out, ag: &AG, rng: &mut Rng) {
 // ------------------------------------------------------------------------------------------
 // input sweeps
 
+// ------------------------------------------------------------------------------------------ C10
+
+/// abstract shortest distances (plain relaxation on the abstract graph) - used only to build
+/// admissible heuristics; their admissibility is re-checked by the oracle.
+fn abstract_dist_to(ag: &AG, goals: &[usize]) -> Vec<i64> {
+    let mut d = vec![INF; ag.n];
+    for &g in goals {
+        d[g] = 0;
+    }
+    for _ in 0..ag.n {
+        for &(s, t, w) in &ag.edges {
+            if d[t] + w < d[s] { d[s] = d[t] + w; }
+            if !ag.directed && d[s] + w < d[t] { d[t] = d[s] + w; }
+        }
+    }
+    d
+}
+
+fn distmap_json<N: Copy + Eq + std::hash::Hash, K: EW>(m: &hashbrown::HashMap<N, K>, fwd: &[N]) -> Value {
+    json!(fwd.iter().map(|v| m.get(v).map(|k| k.to_i64()).unwrap_or(-1)).collect::<Vec<_>>())
+}
+
+fn c10_core<G, K: EW + algo::Measure + Default>(g: G, fwd: &[G::NodeId], inv: &std::collections::HashMap<G::NodeId, usize>, ag: &AG, rng: &mut Rng, f: &mut Fields)
+where
+    G: IntoEdges + Visitable + Copy,
+    G::NodeId: Eq + std::hash::Hash,
+    G::EdgeWeight: EW,
+{
+    let n = fwd.len();
+    let cost = |e: G::EdgeRef| K::from_i64(e.weight().to_i64());
+    f.insert("dj".into(), run(|| json!((0..n).map(|s| distmap_json(&algo::dijkstra(g, fwd[s], None, cost), fwd)).collect::<Vec<_>>())));
+    // with a goal: a few (s, goal) pairs
+    let pairs: Vec<(usize, usize)> = (0..n.min(4)).map(|_| (rng.below(n), rng.below(n))).collect();
+    f.insert("djg".into(), run(|| json!(pairs.iter().map(|&(s, t)| json!({"s": s, "t": t, "d": distmap_json(&algo::dijkstra(g, fwd[s], Some(fwd[t]), cost), fwd)})).collect::<Vec<_>>())));
+    // astar with goal sets and three kinds of admissible heuristic
+    let mut cases = vec![];
+    for _ in 0..n.min(4) {
+        let s = rng.below(n);
+        let mut goals: Vec<usize> = (0..n).filter(|_| rng.chance(1, 3)).collect();
+        if goals.is_empty() && rng.chance(4, 5) {
+            goals.push(rng.below(n));
+        }
+        let exact = abstract_dist_to(ag, &goals);
+        let kind = rng.below(3);
+        let h: Vec<i64> = (0..n).map(|v| match kind {
+            0 => 0,
+            1 => if exact[v] >= INF { 7 } else { exact[v] },
+            _ => if exact[v] >= INF { rng.below(9) as i64 } else { rng.range(0, exact[v]) }, // admissible, inconsistent
+        }).collect();
+        cases.push((s, goals, h));
+    }
+    f.insert("astar".into(), run(|| json!(cases.iter().map(|(s, goals, h)| {
+        let r = algo::astar(g, fwd[*s], |x| goals.contains(&inv[&x]), cost, |x| K::from_i64(h[inv[&x]]));
+        json!({"s": s, "goals": goals, "h": h, "r": match r {
+            None => json!(["none"]),
+            Some((c, p)) => json!(["some", c.to_i64(), p.iter().map(|x| inv[x]).collect::<Vec<_>>()]),
+        }})
+    }).collect::<Vec<_>>())));
+}
+
+fn c10_ksp<G, K: EW + algo::Measure + Default>(g: G, fwd: &[G::NodeId], f: &mut Fields)
+where
+    G: IntoEdges + Visitable + NodeCount + NodeIndexable + Copy,
+    G::NodeId: Eq + std::hash::Hash,
+    G::EdgeWeight: EW,
+{
+    let n = fwd.len();
+    let cost = |e: G::EdgeRef| K::from_i64(e.weight().to_i64());
+    f.insert("ksp".into(), run(|| json!((1..=3usize).map(|k| json!({"k": k, "d": (0..n).map(|s| distmap_json(&algo::k_shortest_path(g, fwd[s], None, k, cost), fwd)).collect::<Vec<_>>()})).collect::<Vec<_>>())));
+}
+
+pub fn c10_graph(out: &mut Out, ag: &AG, rng: &mut Rng) {
+    if ag.n == 0 {
+        return;
+    }
+    let flt = rng.chance(1, 3);
+    macro_rules! body { ($K:ty, $g:ident, $fwd:ident, $inv:ident, $ksp:expr) => {{
+        let mut f = Fields::new();
+        let mut r2 = rng.clone();
+        c10_core::<_, $K>(&$g, &$fwd, &$inv, ag, &mut r2, &mut f);
+        // the k-th-walk oracle is a DP over (length, node, cost): keep it to tiny inputs
+        if $ksp && ag.n <= 3 && ag.edges.iter().all(|e| e.2 <= 3) { c10_ksp::<_, $K>(&$g, &$fwd, &mut f); }
+        f
+    }}}
+    if flt {
+        each_enc!(out, "C10", ag, rng, f64, [graph, stable, matrixd, matrixu, map, csr], |g, fwd, inv| body!(f64, g, fwd, inv, true));
+    } else {
+        each_enc!(out, "C10", ag, rng, [graph, stable, matrixd, matrixu, map, csr], |g, fwd, inv| body!(i64, g, fwd, inv, true));
+        each_enc!(out, "C10", ag, rng, [list], |g, fwd, inv| body!(i64, g, fwd, inv, false));
+    }
+}
+
+// ------------------------------------------------------------------------------------------ C11
+
+fn paths_json<N: Copy + Eq + std::hash::Hash, K: EW>(r: Result<algo::bellman_ford::Paths<N, K>, algo::NegativeCycle>, fwd_ix: &[usize], inv: &std::collections::HashMap<N, usize>) -> Value {
+    match r {
+        Err(_) => json!(["negcycle"]),
+        Ok(p) => json!(["paths",
+            fwd_ix.iter().map(|&i| p.distances[i].to_i64().min(INF)).collect::<Vec<_>>(),
+            fwd_ix.iter().map(|&i| p.predecessors[i].map(|x| inv[&x] as i64).unwrap_or(-1)).collect::<Vec<_>>()]),
+    }
+}
+fn clampk<K: EW + algo::BoundedMeasure>(k: K) -> i64 {
+    if k == K::max() { INF } else { k.to_i64() }
+}
+
+/// bellman_ford / find_negative_cycle use the graph's own (float) weights
+fn c11_bf<G>(g: G, fwd: &[G::NodeId], inv: &std::collections::HashMap<G::NodeId, usize>, f: &mut Fields)
+where
+    G: NodeCount + IntoNodeIdentifiers + IntoEdges + NodeIndexable + Visitable + Copy,
+    G::NodeId: Eq + std::hash::Hash,
+    G::EdgeWeight: algo::FloatMeasure + EW,
+{
+    let n = fwd.len();
+    let ix: Vec<usize> = fwd.iter().map(|&v| g.to_index(v)).collect();
+    f.insert("bf".into(), run(|| json!((0..n).map(|s| paths_json(algo::bellman_ford(g, fwd[s]), &ix, inv)).collect::<Vec<_>>())));
+    f.insert("fnc".into(), run(|| json!((0..n).map(|s| match algo::find_negative_cycle(g, fwd[s]) {
+        None => json!(["none"]),
+        Some(c) => json!(["some", c.iter().map(|x| inv[x]).collect::<Vec<_>>()]),
+    }).collect::<Vec<_>>())));
+}
+
+fn c11_spfa<G, K>(g: G, fwd: &[G::NodeId], inv: &std::collections::HashMap<G::NodeId, usize>, f: &mut Fields, name: &str)
+where
+    G: IntoEdges + IntoNodeIdentifiers + NodeIndexable + Copy,
+    G::NodeId: Eq + std::hash::Hash,
+    G::EdgeWeight: EW,
+    K: EW + algo::BoundedMeasure + Default,
+{
+    let n = fwd.len();
+    let ix: Vec<usize> = fwd.iter().map(|&v| g.to_index(v)).collect();
+    f.insert(name.into(), run(|| json!((0..n).map(|s| match algo::spfa(g, fwd[s], |e| K::from_i64(e.weight().to_i64())) {
+        Err(_) => json!(["negcycle"]),
+        Ok(p) => json!(["paths",
+            ix.iter().map(|&i| clampk(p.distances[i])).collect::<Vec<_>>(),
+            ix.iter().map(|&i| p.predecessors[i].map(|x| inv[&x] as i64).unwrap_or(-1)).collect::<Vec<_>>()]),
+    }).collect::<Vec<_>>())));
+}
+
+fn c11_fw<G, K>(g: G, fwd: &[G::NodeId], f: &mut Fields, name: &str)
+where
+    G: NodeCompactIndexable + IntoEdgeReferences + IntoNodeIdentifiers + GraphProp + Copy,
+    G::NodeId: Eq + std::hash::Hash,
+    G::EdgeWeight: EW,
+    K: EW + algo::BoundedMeasure + Default,
+{
+    let n = fwd.len();
+    f.insert(name.into(), run(|| match algo::floyd_warshall(g, |e| K::from_i64(e.weight().to_i64())) {
+        Err(_) => json!(["negcycle"]),
+        Ok(m) => json!(["dist", (0..n).map(|a| (0..n).map(|b| m.get(&(fwd[a], fwd[b])).map(|&k| clampk(k)).unwrap_or(-7)).collect::<Vec<_>>()).collect::<Vec<_>>()]),
+    }));
+    let ix: Vec<usize> = fwd.iter().map(|&v| g.to_index(v)).collect();
+    let mut back = vec![usize::MAX; g.node_bound()];
+    for (a, &i) in ix.iter().enumerate() {
+        back[i] = a;
+    }
+    f.insert(format!("{}p", name), run(|| match algo::floyd_warshall::floyd_warshall_path(g, |e| K::from_i64(e.weight().to_i64())) {
+        Err(_) => json!(["negcycle"]),
+        Ok((m, prev)) => json!(["dist",
+            (0..n).map(|a| (0..n).map(|b| m.get(&(fwd[a], fwd[b])).map(|&k| clampk(k)).unwrap_or(-7)).collect::<Vec<_>>()).collect::<Vec<_>>(),
+            (0..n).map(|a| (0..n).map(|b| prev[ix[a]][ix[b]].map(|p| back[p] as i64).unwrap_or(-1)).collect::<Vec<_>>()).collect::<Vec<_>>()]),
+    }));
+}
+
+pub fn c11_graph(out: &mut Out, ag: &AG, rng: &mut Rng) {
+    if ag.n == 0 {
+        return;
+    }
+    each_enc!(out, "C11", ag, rng, f64, [graph], |g, fwd, inv| {
+        let mut f = Fields::new();
+        c11_bf(&g, &fwd, &inv, &mut f);
+        c11_spfa::<_, f64>(&g, &fwd, &inv, &mut f, "spfa");
+        c11_fw::<_, f64>(&g, &fwd, &mut f, "fw");
+        f
+    });
+    each_enc!(out, "C11", ag, rng, f32, [stable, matrixd, matrixu, map], |g, fwd, inv| {
+        let mut f = Fields::new();
+        c11_bf(&g, &fwd, &inv, &mut f);
+        c11_spfa::<_, f32>(&g, &fwd, &inv, &mut f, "spfa");
+        f
+    });
+    each_enc!(out, "C11", ag, rng, [graph, csr], |g, fwd, inv| {
+        let mut f = Fields::new();
+        c11_spfa::<_, i32>(&g, &fwd, &inv, &mut f, "spfa");
+        c11_fw::<_, i64>(&g, &fwd, &mut f, "fw");
+        f
+    });
+    each_enc!(out, "C11", ag, rng, [stable, map, list], |g, fwd, inv| {
+        let mut f = Fields::new();
+        c11_spfa::<_, i64>(&g, &fwd, &inv, &mut f, "spfa");
+        f
+    });
+}
+
+// ------------------------------------------------------------------------------------------ C12
+
+fn elements_json<N: Into<i64> + Copy, E: EW>(it: impl Iterator<Item = petgraph::data::Element<N, E>>) -> Value {
+    let mut nodes = vec![];
+    let mut edges = vec![];
+    let mut order_ok = true;
+    for el in it {
+        match el {
+            petgraph::data::Element::Node { weight } => {
+                if !edges.is_empty() { order_ok = false; }
+                nodes.push(weight.into());
+            }
+            petgraph::data::Element::Edge { source, target, weight } => edges.push(json!([source, target, weight.to_i64()])),
+        }
+    }
+    json!({"nodes": nodes, "edges": edges, "nodes_first": order_ok})
+}
+
+fn c12_kruskal<G>(g: G, inv: &std::collections::HashMap<G::NodeId, usize>, f: &mut Fields)
+where
+    G: IntoNodeReferences + IntoEdgeReferences + NodeIndexable + Copy + Data<NodeWeight = i32>,
+    G::EdgeWeight: EW,
+    G::NodeId: Eq + std::hash::Hash,
+{
+    // the node order the stream must follow
+    f.insert("nord".into(), okv(json!(g.node_references().map(|r| inv[&r.id()]).collect::<Vec<_>>())));
+    f.insert("mst".into(), run(|| elements_json(algo::min_spanning_tree(g))));
+}
+fn c12_prim<G>(g: G, f: &mut Fields)
+where
+    G: IntoNodeReferences + IntoEdgeReferences + IntoEdges + NodeIndexable + Copy + Data<NodeWeight = i32>,
+    G::EdgeWeight: EW,
+    G::NodeId: Eq + std::hash::Hash,
+{
+    f.insert("prim".into(), run(|| elements_json(algo::min_spanning_tree_prim(g))));
+}
+
+pub fn c12_graph(out: &mut Out, ag: &AG, rng: &mut Rng) {
+    if ag.n == 0 {
+        return;
+    }
+    let und = !ag.directed;
+    macro_rules! body { ($g:ident, $inv:ident, $prim:expr) => {{
+        let mut f = Fields::new();
+        c12_kruskal(&$g, &$inv, &mut f);
+        if und && $prim { c12_prim(&$g, &mut f); }
+        f
+    }}}
+    if rng.chance(1, 3) {
+        each_enc!(out, "C12", ag, rng, f64, [graph, stable, csr], |g, _fwd, inv| body!(g, inv, true));
+    } else {
+        each_enc!(out, "C12", ag, rng, [graph, stable, csr], |g, _fwd, inv| body!(g, inv, true));
+    }
+}
+
+// ------------------------------------------------------------------------------------------ C16
+
+fn c16_dom<G>(g: G, fwd: &[G::NodeId], inv: &std::collections::HashMap<G::NodeId, usize>, f: &mut Fields)
+where
+    G: IntoNeighbors + Visitable + Copy,
+    G::NodeId: Eq + std::hash::Hash + Copy,
+{
+    let n = fwd.len();
+    f.insert("dom".into(), run(|| json!((0..n).map(|r| {
+        let d = algo::dominators::simple_fast(g, fwd[r]);
+        let lst = |o: Option<algo::dominators::DominatorsIter<G::NodeId>>| match o { None => json!(["none"]), Some(it) => json!(["some", it.map(|x| inv[&x]).collect::<Vec<_>>()]) };
+        json!({
+            "root": inv[&d.root()],
+            "idom": (0..n).map(|v| d.immediate_dominator(fwd[v]).map(|x| inv[&x] as i64).unwrap_or(-1)).collect::<Vec<_>>(),
+            "doms": (0..n).map(|v| lst(d.dominators(fwd[v]))).collect::<Vec<_>>(),
+            "sdoms": (0..n).map(|v| lst(d.strict_dominators(fwd[v]))).collect::<Vec<_>>(),
+            "idby": (0..n).map(|v| d.immediately_dominated_by(fwd[v]).map(|x| inv[&x]).collect::<Vec<_>>()).collect::<Vec<_>>(),
+        })
+    }).collect::<Vec<_>>())));
+}
+fn c16_art<G>(g: G, inv: &std::collections::HashMap<G::NodeId, usize>, f: &mut Fields)
+where
+    G: IntoNodeReferences + IntoEdges + NodeIndexable + GraphProp + Copy,
+    G::NodeWeight: Clone,
+    G::EdgeWeight: Clone + PartialOrd,
+    G::NodeId: Eq + std::hash::Hash,
+{
+    f.insert("art".into(), run(|| {
+        let mut v: Vec<usize> = algo::articulation_points::articulation_points(g).iter().map(|x| inv[x]).collect();
+        v.sort();
+        json!(v)
+    }));
+}
+
+pub fn c16_graph(out: &mut Out, ag: &AG, rng: &mut Rng) {
+    if ag.n == 0 {
+        return;
+    }
+    if ag.directed {
+        each_enc!(out, "C16", ag, rng, [graph, stable, matrixd, map, csr, list], |g, fwd, inv| {
+            let mut f = Fields::new();
+            c16_dom(&g, &fwd, &inv, &mut f);
+            f
+        });
+    } else {
+        each_enc!(out, "C16", ag, rng, [graph, stable, matrixu, map, csr], |g, _fwd, inv| {
+            let mut f = Fields::new();
+            c16_art(&g, &inv, &mut f);
+            f
+        });
+    }
+}
+
 pub fn prop_fn(prop: &str) -> fn(&mut Out, &AG, &mut Rng) {
     match prop {
         "C09" => c09_graph,
+        "C10" => c10_graph,
+        "C11" => c11_graph,
+        "C12" => c12_graph,
+        "C16" => c16_graph,
         _ => panic!("unknown property {}", prop),
     }
 }
@@ -242,8 +551,18 @@ pub fn replay(prop: &str, seed: u64, recs: &[Value], out: &mut Out) {
 }
 
 /// Exhaustive small graphs + seeded random shapes, both edge types.
+pub fn wrange(prop: &str) -> (i64, i64) {
+    match prop {
+        "C10" => (0, 3),
+        "C11" => (-3, 4),
+        "C12" => (1, 3),
+        _ => (1, 5),
+    }
+}
+
 pub fn sweep(prop: &str, seed: u64, exhaustive_n: usize, random: usize, nmax: usize, out: &mut Out) {
     let mut rng = Rng::new(seed);
+    let (wlo, whi) = wrange(prop);
     let f = prop_fn(prop);
     for directed in [true, false] {
         for n in 1..=exhaustive_n {
@@ -253,14 +572,15 @@ pub fn sweep(prop: &str, seed: u64, exhaustive_n: usize, random: usize, nmax: us
             let stride = if space > 5000 { (space / 3000).max(1) } else { 1 };
             let mut code = 0;
             while code < space {
-                let mut k = 0;
-                let ag = graph_by_code(n, directed, true, mult, code, &mut || { k += 1; k });
+                let mut wr = rng.clone();
+                let ag = graph_by_code(n, directed, true, mult, code, &mut || wr.range(wlo, whi));
+                rng.next();
                 f(out, &ag, &mut rng);
                 code += if stride == 1 { 1 } else { 1 + rng.below(2 * stride as usize) as u64 };
             }
         }
         for _ in 0..random {
-            let ag = random_ag(&mut rng, nmax, directed, 1, 5, true, true);
+            let ag = random_ag(&mut rng, nmax, directed, wlo, whi, true, true);
             f(out, &ag, &mut rng);
         }
         if prop == "C09" || prop == "C12" {
